@@ -86,7 +86,7 @@ class HSFZConnection:
         self.src_addr = src_addr
         self.dst_addr = dst_addr
         self.ack_timeout = ack_timeout
-        self._read_queue: asyncio.Queue[HSFZDiagFrame | int] = asyncio.Queue()
+        self._read_queue: asyncio.Queue[HSFZDiagFrame | int | None] = asyncio.Queue()
         self._read_task = asyncio.create_task(self._read_worker())
         self._read_task.add_done_callback(
             handle_task_error,
@@ -185,6 +185,9 @@ class HSFZConnection:
             logger.debug(f"read worker received EOF: {e}")
         except Exception as e:
             logger.critical(f"read worker died: {e}")
+        finally:
+            # Wake up a consumer which is already waiting for the next frame.
+            self._read_queue.put_nowait(None)
 
     async def _unpack_frame(self, frame: HSFZDiagFrame | int) -> HSFZDiagFrame:
         # I little hack, but it is either a tuple or an int….
@@ -204,12 +207,17 @@ class HSFZConnection:
             else:
                 raise RuntimeError("connection already closed")
 
-        return await self._read_queue.get()
+        frame = await self._read_queue.get()
+        if frame is None:
+            # The read worker has terminated; keep the marker for other consumers.
+            self._read_queue.put_nowait(None)
+            raise BrokenPipeError("connection closed by peer")
+        return frame
 
     def _requeue(self, frames: list[HSFZDiagFrame]) -> None:
         # The skipped frames arrived before everything that is still in the queue,
         # so they go back in front of it to preserve the order of arrival.
-        later: list[HSFZDiagFrame | int] = []
+        later: list[HSFZDiagFrame | int | None] = []
         while not self._read_queue.empty():
             later.append(self._read_queue.get_nowait())
         for item in [*frames, *later]:
